@@ -29,11 +29,11 @@ ENV = {'XLA_FLAGS': '--xla_force_host_platform_device_count=8'}
 MIN_HITS = {
     'quick': {'mon:fold': 400, 'mon:ids': 200, 'mon:steps': 200, 'mon:sanitize': 200, 'backend:jit': 40, 'backend:debug': 40,
               'backend:pmap': 100, 'pmap-padding-client': 30, 'pmap-padding-batch': 30, 'nan-on-padding-program': 20,
-              'mon:thread': 5000, 'thread-alternations': 50, 'zero-batches-client': 20, 'mon:restore': 500, 'client-id-None': 5},
+              'mon:thread': 5000, 'thread-alternations': 50, 'zero-batches-client': 20, 'mon:restore': 500, 'client-id-None': 5, 'reuse:jit': 30, 'reuse:pmap': 30},
     'thorough': {'mon:fold': 8000, 'mon:ids': 4000, 'mon:steps': 4000, 'mon:sanitize': 4000, 'backend:jit': 400,
                  'backend:debug': 400, 'backend:pmap': 3000, 'pmap-padding-client': 800, 'pmap-padding-batch': 800,
                  'nan-on-padding-program': 200, 'mon:thread': 100000, 'thread-alternations': 500, 'zero-batches-client': 300,
-                 'mon:restore': 10000, 'client-id-None': 100},
+                 'mon:restore': 10000, 'client-id-None': 100, 'reuse:jit': 400, 'reuse:pmap': 400},
 }
 TECHNIQUE = 'runtime monitoring: eager sequential-fold oracle vs jit/debug/pmap(1..8 devices) + donation sanitizer; shadow-stack monitor over multi-threaded backend-selection schedules'
 LEVEL_TEXT = ('Each generated client program is executed by all three real backends (pmap on every device count 1..8 in thorough) and '
@@ -171,20 +171,24 @@ def run_program(ctx, jax, jnp, fedjax, fec, rng, nds):
     ctx.count('client-id-None')
 
   # ----- oracle: the definition, evaluated eagerly
-  expected = {}
-  with jax.disable_jit():
-    sh = jax.tree_util.tree_map(jnp.asarray, shared_np)
-    for cid, batches, cin in clients_np:
-      st = init(sh, jax.tree_util.tree_map(jnp.asarray, cin))
-      results = []
-      for b in batches:
-        out = step(st, jax.tree_util.tree_map(jnp.asarray, b))
-        if wsr:
-          st, r = out
-          results.append(to_np_tree(jax, r))
-        else:
-          st = out
-      expected[cid] = (to_np_tree(jax, final(sh, st)), results)
+  def oracle(shared_values):
+    exp = {}
+    with jax.disable_jit():
+      sh = jax.tree_util.tree_map(jnp.asarray, shared_values)
+      for cid, batches, cin in clients_np:
+        st = init(sh, jax.tree_util.tree_map(jnp.asarray, cin))
+        results = []
+        for b in batches:
+          out = step(st, jax.tree_util.tree_map(jnp.asarray, b))
+          if wsr:
+            st, r = out
+            results.append(to_np_tree(jax, r))
+          else:
+            st = out
+        exp[cid] = (to_np_tree(jax, final(sh, st)), results)
+    return exp
+
+  expected = oracle(shared_np)
   for cid, (o, rs) in expected.items():
     for leaf in jax.tree_util.tree_leaves((o, rs)):
       if leaf.dtype.kind == 'f' and not np.all(np.isfinite(leaf)):
@@ -276,6 +280,35 @@ def run_program(ctx, jax, jnp, fedjax, fec, rng, nds):
       klass.append(f'nd={nd}')
     ctx.case_done((tuple(sorted(p.items())), tuple(counts), name) if nontrivial else None,
                   sample=w if fam == 'pmap' else None, klass=klass)
+
+    # ----- ONE for_each_client function used for two calls; between them the caller updates its own (NumPy) shared input
+    #       in place, as a training loop does with `params -= lr * delta`. The second call must see the new values.
+    if clients_np and (fam != 'pmap' or name == backends[2][0]):
+      sh2 = {k: v.copy() for k, v in shared_np.items()}
+
+      def reuse():
+        with fedjax.for_each_client_backend(backend):
+          f = fedjax.for_each_client(init, step, final, with_step_result=wsr)
+        cl = lambda: [(cid, [dict(b) for b in bs], jax.tree_util.tree_map(jnp.asarray, cin)) for cid, bs, cin in clients_np]
+        # value copies: with a pass-through program the debug backend legitimately returns the caller's own array
+        first = [(t[0],) + tuple(jax.tree_util.tree_map(lambda a: np.array(a), t[1:])) for t in f(sh2, cl())]
+        sh2['s'] += np.float32(1.5)      # in-place update of a caller-owned array
+        sh2['t'] *= np.float32(0.5)
+        return first, list(f(sh2, cl()))
+
+      r = ctx.call(f'for_each_client[{fam}-reused]', reuse, witness=w)
+      if r.ok:
+        exp2 = oracle({'s': shared_np['s'] + np.float32(1.5), 't': shared_np['t'] * np.float32(0.5)})
+        for which, out_, exp_ in (('first', r.value[0], expected), ('second', r.value[1], exp2)):
+          ok_all = True
+          for t in out_:
+            if t[0] in exp_:
+              ok, why = trees_match(jax, to_np_tree(jax, t[1]), exp_[t[0]][0])
+              ok_all = ok_all and ok
+          ctx.check(ok_all and len(out_) == len(clients_np), f'fold/reused-function-{which}-call-{fam}',
+                    f'[{name}] {which} call of a re-used for_each_client function differs from the fold over the CURRENT '
+                    f'shared input (the caller updated its NumPy arrays in place between the calls)', w)
+        ctx.count('reuse:' + fam)
 
 
 # ------------------------------------------------------------------ schedules
